@@ -129,3 +129,23 @@ func lhsOfCallTo(fn *Fn, method string, idx int) string {
 	})
 	return name
 }
+
+// isNegatedIdent: e has the form `!x` with x an identifier.
+func isNegatedIdent(e ast.Expr) bool {
+	u, ok := unparen(e).(*ast.UnaryExpr)
+	if !ok || u.Op.String() != "!" {
+		return false
+	}
+	_, ok = unparen(u.X).(*ast.Ident)
+	return ok
+}
+
+// allNilTests: cond is a nil test (x == nil / x != nil) or a && / || combination of nil tests.
+func allNilTests(info *types.Info, cond ast.Expr) bool {
+	cond = unparen(cond)
+	if b, ok := cond.(*ast.BinaryExpr); ok && (b.Op.String() == "&&" || b.Op.String() == "||") {
+		return allNilTests(info, b.X) && allNilTests(info, b.Y)
+	}
+	_, _, ok := nilTest(info, cond)
+	return ok
+}
